@@ -129,6 +129,7 @@ type kidSpec struct {
 	Namespaced bool        `json:"namespaced"`
 	Method     string      `json:"method"`
 	Checks     []condCheck `json:"checks"`
+	EmptyStrategy bool     `json:"emptyStrategy"` // an updateStrategy block without a method (the CRD allows it)
 }
 
 type ctlSpec struct {
@@ -166,7 +167,7 @@ func (s *ctlSpec) compositeController() *v1alpha1.CompositeController {
 		rule := v1alpha1.CompositeControllerChildResourceRule{}
 		rule.APIVersion = k.APIVersion
 		rule.Resource = k.Resource
-		if k.Method != "" {
+		if k.Method != "" || k.EmptyStrategy {
 			rule.UpdateStrategy = &v1alpha1.CompositeControllerChildUpdateStrategy{Method: v1alpha1.ChildUpdateMethod(k.Method)}
 			for _, c := range k.Checks {
 				rule.UpdateStrategy.StatusChecks.Conditions = append(rule.UpdateStrategy.StatusChecks.Conditions,
